@@ -176,11 +176,11 @@ CHECKS = {
         ],
     },
     "C12": {
-        "module": "Vanguard.Props.C12",
+        "module": "Vanguard.Props.C12e2e",      # imports Vanguard.Props.C12 (codec theorems); same namespace
         "namespace": "Vanguard.C12",
         "streams": ["timeout", "e2e"],
-        "partial": "REST X-Server-Timeout legs (float64 arithmetic) are outside the Lean model; that a client's timeout reaches the backend of every "
-                   "protocol pairing (operation.validate, addProtocolRequestHeaders) is the e2e correspondence plus oracleC12, not a theorem",
+        "partial": "REST X-Server-Timeout legs (float64 arithmetic) are outside the Lean model (REST clients and REST targets are not in the e2e model); "
+                   "for the RPC protocols the way of the timeout through ServeHTTP is proved (Props/C12e2e.lean) and checked by oracleC12 on the e2e stream",
         "assumptions": [
             "strconv.ParseInt/FormatInt are modelled explicitly (Model/Decimal.lean) and cross-checked by the parse_int64/format_int ops",
         ],
